@@ -230,6 +230,8 @@ PREDICATES = {
     "non20_address": lambda hist: any(n.endswith("+") or n.endswith("-") for e in hist["ops"] for n in _names(e)),
     # D11: a call with a repeated frequency of 2^64-1
     "huge_frequency": lambda hist: any(e.get("freqhuge") for e in hist["ops"]),
+    # D14: a module that starts a context from inside its state callback
+    "state_callback_start": lambda hist: any(e.get("name") == "ModCreate" and e.get("rstate") == "start" for e in hist["ops"]),
     # D9: a call naming the registered module service
     "module_service_call": lambda hist: bool(hist["reset"].get("modsvc")) and any(
         e.get("name") == "Call" and e.get("svc") == "msvc" for e in hist["ops"]),
